@@ -34,6 +34,12 @@ theorem to_csv_rows (writerow : List Export.Cell → List Char) (f : Frame) (rf 
   simp only [toCsv, show ¬ crs ≤ 0 by omega, if_false, csvNames_ok hsel hflt, hflt, hget,
     exportLoop_eq _ flt _ _ hfne hc (Nat.le_refl _)]
 
+/-- non-vacuity: the hypotheses hold for a frame filtered by its own boolean column, selection `['b','s']`, chunk size 3 -/
+example :=
+  to_csv_rows renderRow [⟨['s'], [['a'], [' ', 'b'], ['c', ',', 'd'], ['e']]⟩, ⟨['b'], [['T'], ['F'], ['T'], ['T']]⟩]
+    (.field (some ['b']) true true [true, false, true, true]) (.many [['b'], ['s']]) 3 [['b'], ['s']]
+    (some [true, false, true, true]) (by decide) (Selects.many _ (by decide) (by decide)) rfl (by decide)
+
 example : toCsv renderRow [⟨['s'], [['a'], [' ', 'b'], ['c', ',', 'd'], ['e']]⟩, ⟨['b'], [['T'], ['F'], ['T'], ['T']]⟩]
     (.field (some ['b']) true true [true, false, true, true]) (.many [['b'], ['s']]) 3
     = .ok ['s', '\n', 'a', '\n', '"', 'c', ',', 'd', '"', '\n', 'e', '\n'] := by decide
@@ -74,10 +80,15 @@ theorem terminates (c0 : List Export.Cell) (rest : List (List Export.Cell)) (flt
 example : exportLoop [[['a'], ['b'], ['c'], ['d']]] none 2 3 = .ok [[['a']], [['b']], [['c']], [['d']]] ∧
     exportLoop [[['a'], ['b'], ['c'], ['d']]] none 2 2 = .error .outOfFuel := by decide
 
-/-- **std_parser_recovers**: with the specified `csv.writer` (`renderRow`), a standard CSV reader applied to the file written
+/- FULL STATEMENT (not provable: false as found, `Witness.C18.nc18a_bare_cr_splits_record`):
+     theorem std_parser_recovers … (hcrs) (hsel) (hflt) (hne) :
+       ∃ fields text, f.getAll (dropFilterColumn rf sel) = .ok fields ∧ toCsv renderRow f rf cf crs = .ok text ∧
+         parse .std text = dropFilterColumn rf sel :: exportRows (fields.map (·.data)) flt
+   i.e. without the hypothesis `hread`. What is missing: csv.writer (Python < 3.13) does not quote a bare carriage return. -/
+/-- **std_parser_recovers_partial**: with the specified `csv.writer` (`renderRow`), a standard CSV reader applied to the file written
     by `to_csv` recovers the header and every cell of every selected row exactly — provided no cell or name of the frame holds a
     carriage return without also holding a comma, quote or line feed (finding NC18a: such a cell is written unquoted). -/
-theorem std_parser_recovers (f : Frame) (rf : RowFilter) (cf : ColFilter) (crs : Int)
+theorem std_parser_recovers_partial (f : Frame) (rf : RowFilter) (cf : ColFilter) (crs : Int)
     (sel : List Export.Cell) (flt : Option (List Bool))
     (hcrs : 0 < crs) (hsel : Selects f cf sel) (hflt : validateRowFilter rf = .ok flt)
     (hne : dropFilterColumn rf sel ≠ [])
@@ -102,6 +113,12 @@ theorem std_parser_recovers (f : Frame) (rf : RowFilter) (cf : ColFilter) (crs :
   have hid : (fun c : Export.Cell => asRead .std c) = id := funext asRead_std
   simp [hid]
 
+/-- non-vacuity: a frame with separators, quotes, a line feed, a leading blank, and a *quoted* carriage return -/
+example :=
+  std_parser_recovers_partial [⟨['s'], [['a', ',', '"', 'b', '"', '\n', 'c'], [' ', 'x'], ['\r', ',']]⟩, ⟨['n'], [['1'], ['2'], ['3']]⟩]
+    (.array [true, true, true, true]) .none 2 [['s'], ['n']] (some [true, true, true, true]) (by decide) Selects.none rfl
+    (by decide) (by decide)
+
 example : parse .std (render [[['s'], ['n']], [['a', ',', '"', 'b', '"', '\n', 'c'], ['1']], [[' ', 'x'], ['2']]])
     = [[['s'], ['n']], [['a', ',', '"', 'b', '"', '\n', 'c'], ['1']], [[' ', 'x'], ['2']]] := by decide
 
@@ -122,25 +139,85 @@ theorem reimport_roundtrip (f : Frame) (rf : RowFilter) (cf : ColFilter) (crs : 
   simp only [render, List.flatMap_cons] at this
   exact this
 
-/-- a cell without leading blank is re-imported exactly -/
-theorem asRead_exetera_of_no_leading_blank (c : Export.Cell) (h : c.head? ≠ some ' ') : asRead .exetera c = c := by
-  cases c with
-  | nil => simp [asRead]
-  | cons x xs =>
-    have hx : (x == ' ') = false := by simpa using h
-    simp only [asRead]
-    split
-    · simp [List.dropWhile, hx]
-    · rfl
+/-- a cell keeps its blanks through the round trip: it has no leading blank, or something in it forces quotes -/
+def KeepsBlanks (c : Export.Cell) : Prop := c.head? = some ' ' → c.any special = true
+
+instance (c : Export.Cell) : Decidable (KeepsBlanks c) := by unfold KeepsBlanks; infer_instance
+
+theorem asRead_exetera_of_keepsBlanks (c : Export.Cell) (h : KeepsBlanks c) : asRead .exetera c = c := by
+  by_cases hs : c.any special = true
+  · simp [asRead, hs]
+  · cases c with
+    | nil => simp [asRead]
+    | cons x xs =>
+      have hx : (x == ' ') = false := by
+        have : ¬ (x :: xs).head? = some ' ' := fun h' => hs (h h')
+        simpa using this
+      simp only [asRead]
+      split
+      · simp [List.dropWhile, hx]
+      · rfl
+
+/- FULL STATEMENT (not provable: false as found, `Witness.C18.d30_leading_blank_lost`):
+     theorem reimport_exact … (hcrs) (hsel) (hflt) (hne) :
+       ∃ fields text, … ∧ parse .exetera text = dropFilterColumn rf sel :: exportRows (fields.map (·.data)) flt
+   i.e. without the hypothesis `hkeep`. What is missing: the writer leaves a cell with leading blanks unquoted and the reader
+   skips blanks at the start of a field (D30); `reimport_roundtrip` above states exactly what is read instead. -/
+/-- **reimport_exact_partial**: if every cell and name of the frame keeps its blanks (no leading blank, or quoted anyway), re-import
+    through ExeTera's reader dialect reproduces the header and every selected row exactly. -/
+theorem reimport_exact_partial (f : Frame) (rf : RowFilter) (cf : ColFilter) (crs : Int)
+    (sel : List Export.Cell) (flt : Option (List Bool))
+    (hcrs : 0 < crs) (hsel : Selects f cf sel) (hflt : validateRowFilter rf = .ok flt)
+    (hne : dropFilterColumn rf sel ≠ [])
+    (hkeep : ∀ c ∈ f, KeepsBlanks c.name ∧ ∀ x ∈ c.data, KeepsBlanks x) :
+    ∃ fields text, f.getAll (dropFilterColumn rf sel) = .ok fields ∧ toCsv renderRow f rf cf crs = .ok text ∧
+      parse .exetera text = dropFilterColumn rf sel :: exportRows (fields.map (·.data)) flt := by
+  obtain ⟨fields, hget, hnames, hmem, hcsv⟩ := to_csv_rows renderRow f rf cf crs sel flt hcrs hsel hflt hne
+  obtain ⟨fields', text, hget', hcsv', hparse⟩ := reimport_roundtrip f rf cf crs sel flt hcrs hsel hflt hne
+  have hf : fields' = fields := by rw [hget] at hget'; exact (Except.ok.inj hget').symm
+  subst hf
+  refine ⟨fields', text, hget, hcsv', ?_⟩
+  rw [hparse]
+  have hrows : ∀ r ∈ dropFilterColumn rf sel :: exportRows (fields'.map (·.data)) flt, r.map (asRead .exetera) = r := by
+    intro r hr
+    have hall : ∀ c ∈ r, asRead .exetera c = c := by
+      intro c hc
+      apply asRead_exetera_of_keepsBlanks
+      simp only [List.mem_cons] at hr
+      rcases hr with rfl | hr
+      · rw [← hnames] at hc
+        obtain ⟨col, hcol, rfl⟩ := List.mem_map.mp hc
+        exact (hkeep col (hmem col hcol)).1
+      · obtain ⟨col, hcol, hx⟩ := mem_exportRows hr hc
+        obtain ⟨fc, hfc, rfl⟩ := List.mem_map.mp hcol
+        exact (hkeep fc (hmem fc hfc)).2 c hx
+    conv => rhs; rw [← List.map_id r]
+    exact List.map_congr_left (fun c hc => by simp [hall c hc])
+  conv => rhs; rw [← List.map_id (dropFilterColumn rf sel :: exportRows (fields'.map (·.data)) flt)]
+  exact List.map_congr_left (fun r hr => by simp [hrows r hr])
+
+/-- non-vacuity: trailing blanks, inner blanks, a quoted leading blank and a carriage return all survive -/
+example :=
+  reimport_exact_partial [⟨['s'], [['x', ' '], [' ', 'y', ','], ['a', '\r', 'b'], ['p', ' ', 'q']]⟩] .none (.one ['s']) 3 [['s']] none
+    (by decide) (Selects.one _ (by decide)) rfl (by decide) (by decide)
+
+example :=
+  reimport_roundtrip [⟨['s'], [[' ', 'x'], [' ', 'y', ','], ['a', '\r', 'b']]⟩, ⟨['n'], [['1'], ['2'], ['3']]⟩] .none .none 2 [['s'], ['n']] none
+    (by decide) Selects.none rfl (by decide)
 
 example : parse .exetera (render [[['s'], ['n']], [[' ', 'x'], ['1']], [[' ', 'y', ','], ['2']], [['a', '\r', 'b'], ['3']]])
     = [[['s'], ['n']], [['x'], ['1']], [[' ', 'y', ','], ['2']], [['a', '\r', 'b'], ['3']]] := by decide
 
-/-- **to_pandas_eq**: for a valid, non-empty column selection whose columns all have `N` rows and a row filter that is absent or a
+/- FULL STATEMENT (not provable: false as found, `Witness.C18.nc18b_to_pandas_refuses_csv_filters`):
+     "to_pandas returns columns equal to the field data under the same filters [as to_csv]", i.e. the conclusion below with
+     `flt` the content of *any* filter `to_csv` accepts (a boolean Field, an array shorter or longer than the frame, missing
+     entries meaning False) instead of `hflt : PdFilterOk N rf flt`. What is missing: numpy refuses a Field as an index and a
+     boolean index of another length (NC18b). -/
+/-- **to_pandas_eq_partial**: for a valid, non-empty column selection whose columns all have `N` rows and a row filter that is absent or a
     boolean list / array of length `N`, `to_pandas` ends normally; its columns are the distinct selected names in order of first
     occurrence, and each column is `[x_i | i < N, filter i]` of the frame's column of that name.
     (A Field as filter, or a filter of another length, is refused by numpy: finding NC18b, `Witness.C18`.) -/
-theorem to_pandas_eq (f : Frame) (rf : PdFilter) (cf : ColFilter) (sel : List Export.Cell) (flt : Option (List Bool)) (N : Nat)
+theorem to_pandas_eq_partial (f : Frame) (rf : PdFilter) (cf : ColFilter) (sel : List Export.Cell) (flt : Option (List Bool)) (N : Nat)
     (hsel : Selects f cf sel) (hne : sel ≠ []) (hlen : ∀ c ∈ f, c.name ∈ sel → c.data.length = N)
     (hflt : PdFilterOk N rf flt) :
     ∃ cols, toPandas f rf cf = .ok cols ∧ cols.map (·.1) = firstOccurrences [] sel ∧
@@ -162,6 +239,11 @@ theorem to_pandas_eq (f : Frame) (rf : PdFilter) (cf : ColFilter) (sel : List Ex
   | none => simp only [toPandas, hcheck, h1]
   | one n hn => simp only [toPandas, h1]
   | many _ _ => simp only [toPandas, hcheck, h1]
+
+example :=
+  to_pandas_eq_partial [⟨['s'], [['a'], ['b'], ['c']]⟩, ⟨['n'], [['1'], ['2'], ['3']]⟩] (.list [true, false, true])
+    (.many [['n'], ['s'], ['n']]) [['n'], ['s'], ['n']] (some [true, false, true]) 3
+    (Selects.many _ (by decide) (by decide)) (by decide) (by decide) (PdFilterOk.list _ rfl)
 
 example : toPandas [⟨['s'], [['a'], ['b'], ['c']]⟩, ⟨['n'], [['1'], ['2'], ['3']]⟩] (.list [true, false, true])
     (.many [['n'], ['s'], ['n']]) = .ok [(['n'], [['1'], ['3']]), (['s'], [['a'], ['c']])] := by decide
